@@ -244,6 +244,7 @@ def c09(ctx: Ctx) -> None:
 def c10(ctx: Ctx) -> None:
     RE.rule_definite_assignment(ctx)
     RE.rule_call_arity(ctx)
+    RSER.rule_machine_roundtrip(ctx)
     RSER.rule_dict_tables(ctx)
     RSER.rule_machine_exact(ctx)
     RSER.rule_file_tags(ctx)
